@@ -715,8 +715,12 @@ class C15(Check):
         st = {"pos": np.zeros((dim, n)), "vel": g.standard_normal((dim, n)), "hmax": dx}
         for ax in range(dim):
             n_ax = shape[dim - 1 - ax]
-            # clustered so that marker supports overlap (spreading accumulates)
-            st["pos"][ax] = dx * (0.5 * n_ax + 0.8 * (g.random(n) - 0.5))
+            # clustered so that marker supports overlap (spreading accumulates), but spread over several
+            # cells and unsorted, so that orderings derived from cell indices differ from the marker order
+            lo, hi = 1.6, n_ax - 2.6
+            mid = 0.5 * (lo + hi)
+            half = min(1.6, 0.5 * (hi - lo))
+            st["pos"][ax] = dx * (mid + 2.0 * half * (g.random(n) - 0.5))
         return ImmersedBodyFlowInteraction(
             flow.eul_grid_forcing_field, flow.velocity_field, np.zeros((3, 1)), np.zeros((3, 1)), _prog_grid_cls(ImmersedBodyForcingGrid), -500.0, -2.0, flow.dx, dim,
             real_t=flow.real_t, enable_eul_grid_forcing_reset=reset, num_threads=p["num_threads"], num_lag_nodes=n, state=st,
